@@ -36,7 +36,9 @@ RAW_WEIGHTS = {
     "C02": {"rstrip": 3, "optimize_width": 3, "transpose": 2, "set_span": 2, "del_span": 1, "live_row_rep": 4, "live_cell_rep": 4,
             # a row wrapper obtained with clone=False and edited in place; extend_rows fed by an iterable
             # that fails half-way (caller catches) or that holds the same Row object several times
-            "live_row_op": 5, "extend_rows_odd": 2, "live_row_rep_ge": 2},
+            "live_row_op": 5, "extend_rows_odd": 2, "live_row_rep_ge": 2, "held_rows_rep": 2},
+    # C08 judges reads: whole-table operations in the history change what the reads see
+    "C08": {"rstrip": 2, "optimize_width": 3, "transpose": 1},
     # C07 quantifies over histories of public Table/Row operations: the
     # repeated-setters on live wrappers (C02's quantifier) are not in it
     # (the repeated-setters on live wrappers are a known C02 finding that leaves the live table stale: kept out of C10)
@@ -408,6 +410,8 @@ class TableEngine:
                 spec["wrap_cols"] = rng.choice(["columns", "header"], "wrapkind")
             if rng.chance(0.12, "prechildren"):
                 spec["pre_children"] = True
+            if self.prop in ("C01", "C02", "C07") and rng.chance(0.08, "nested") and rows and rows[0]["cells"] and rows[0]["cells"][0].get("r", 1) == 1 and not rows[0]["cells"][0].get("cs"):
+                rows[0]["cells"][0] = {"v": None, "nested": True}
             if rng.chance(0.12, "initspan") and len(rows) >= 2:
                 r0, r1 = rows[0], rows[1]
                 if r0["cells"] and r1["cells"] and (r0.get("r", 1) == 1) and (r1.get("r", 1) == 1) and r0["cells"][0].get("r", 1) == 1 and r1["cells"][0].get("r", 1) == 1:
@@ -440,6 +444,28 @@ class TableEngine:
             if kind in ("get_row", "get_cell") and rng.chance(0.5, "rclone"):
                 op["clone"] = False
             return op
+        if self.prop == "C08" and getattr(self, "_after_whole_table_op", False):
+            # right after rstrip / optimize_width / transpose: a read at or just past the new last row
+            self._after_whole_table_op = False
+            if rng.chance(0.8, "probe_after_wt"):
+                op = table_probes.gen_probe(self, rng, tv)
+                g = rng.choice(["get_row", "get_cell", "row_reports", "get_value"], "pawt")
+                op["getter"] = g
+                for k in ("c", "y", "x", "area", "start", "end", "filter", "neg", "live", "keep_repeated"):
+                    op.pop(k, None)
+                yy = tv.height + rng.choice([0, 0, 1, -1], "pawt_y")
+                yy = max(0, yy)
+                if g in ("get_cell", "get_value"):
+                    op["c"] = {"x": 0, "y": yy}
+                else:
+                    op["y"] = yy
+                if rng.chance(0.3, "pawt_neg") and g != "row_reports":
+                    op["neg"] = True
+                    if g in ("get_cell", "get_value"):
+                        op["c"]["y"] = max(0, tv.height - 1)
+                    else:
+                        op["y"] = max(0, tv.height - 1)
+                return op
         if self.prop == "C08" and rng.chance(0.45, "probe?"):
             return table_probes.gen_probe(self, rng, tv)
         if self.prop == "C17" and rng.chance(0.45, "law?"):
@@ -647,8 +673,10 @@ class TableEngine:
             edits = []
             for _ in range(rng.randint(1, 3, "nedits")):
                 ek = rng.choice(["set_cell", "set_value", "insert_cell", "append_cell", "delete_cell",
-                                 "set_values", "set_cells", "extend_cells", "rstrip", "rstrip", "read", "clear"], "ekind")
+                                 "set_values", "set_cells", "extend_cells", "rstrip", "rstrip", "read", "clear", "force_width"], "ekind")
                 e = {"e": ek}
+                if ek == "force_width":
+                    e["w"] = rng.randint(0, rw + 1, "fw")
                 if ek in ("set_cell", "insert_cell"):
                     e["x"] = rng.randint(0, rw + 1, "ex")
                     e["cell"] = self._cell(rng)
@@ -678,6 +706,17 @@ class TableEngine:
             op["how"] = rng.choice(["fails", "same_object"], "oddhow")
             if op["how"] == "fails":
                 op["k"] = rng.randint(0, len(op["rows"]), "failat")
+        elif name == "held_rows_rep":
+            # row elements fetched, a row appended to the table, then the repeat count of one of the rows
+            # fetched before is changed (they share the table's row map)
+            if W == 0 or H == 0:
+                # (an append to a table without columns rebuilds the maps: handles fetched before are then plain
+                # strangers to the table - the live-setter finding by another door)
+                return {"op": "read", "kind": "get_values", "y": 0, "x": 0, "obs": self._obs_plan(rng, tv)}
+            op["i"] = rng.randint(0, 30, "hri")
+            op["k"] = rng.choice([None, 2, 3, self.cfg["max_rep"]], "hrk")
+            op["row"] = self._row(rng, W) or {"cells": []}
+            op["via"] = rng.choice(["get_elements", "get_elements", "get_rows"], "hrvia")
         elif name == "live_row_rep_ge":
             op["i"] = rng.randint(0, 30, "gei")
             op["k"] = rng.choice([None, None, 1, 2, 3, self.cfg["max_rep"]], "k")
@@ -949,6 +988,7 @@ class TableEngine:
         self.stats.probe("op:" + name)
         if name in ts.RAW_MUTATIONS:
             self.n_mut += 1
+            self._after_whole_table_op = name in ("rstrip", "optimize_width", "transpose")
         if name in ts.GRID_MUTATIONS:
             self.n_mut += 1
             if any(f in feats for f in ("row_run", "cell_run", "col_run", "src_row_run")):
